@@ -67,6 +67,8 @@ pub enum Op {
     FillCap { parts: usize },
     /// repeat the layout of the previous allocation-type call (follow-up probe)
     Again,
+    /// `count` allocations of (size, align) in one event (volume workloads: only chunk acquisitions matter)
+    Bulk { size: usize, align: usize, count: usize },
     /// move the arena to another thread, run the nested ops there, move it back
     OnThread { ops: Vec<Op> },
 }
@@ -1410,6 +1412,40 @@ fn step<const M: usize>(st: &mut St<M>, op: &Op) {
                 }
             }
         }
+        Op::Bulk { size, align, count } => {
+            let mut ev = base_event("bulk");
+            ev.fall = 1;
+            ev.size = *size as i64;
+            ev.align = *align as i64;
+            ev.len = *count as i64;
+            let (size, align, count) = (*size, *align, *count);
+            let l = match Layout::from_size_align(size, align) {
+                Ok(l) => l,
+                Err(_) => return,
+            };
+            let mut done = 0i64;
+            st.call(ev, |b| {
+                let bump = match b.as_ref() {
+                    Some(b) => b,
+                    None => return Out::None,
+                };
+                for _ in 0..count {
+                    match bump.try_alloc_layout(l) {
+                        Ok(p) => {
+                            if size > 0 {
+                                unsafe { *p.as_ptr() = 0xAB };
+                            }
+                            done += 1;
+                        }
+                        Err(_) => return Out::Err,
+                    }
+                }
+                Out::None
+            });
+            if let Some(ev) = st.out.last_mut() {
+                ev.blk = done;
+            }
+        }
         Op::Again => {
             if let Some((size, align)) = st.last_layout {
                 step(st, &Op::Layout { size, align, fallible: true });
@@ -1490,6 +1526,16 @@ fn run_m<const M: usize>(pidx: usize, prog: &Program) -> Vec<Event> {
     };
     for op in &prog.ops {
         step(&mut st, op);
+    }
+    // probe suffix: a few more allocations and an iteration, so that a bump pointer that was
+    // left in the wrong place shows up as a real overlap / a live block missing from the chunks
+    if st.bump.is_some() && !prog.tag.starts_with("volume") {
+        rec::set_fault(Fault::None);
+        st.tag = "probe".to_string();
+        for op in [Op::Iter, Op::Layout { size: 1, align: 1, fallible: true }, Op::Layout { size: 12, align: 4, fallible: true },
+                   Op::Layout { size: 64, align: 8, fallible: true }, Op::Iter] {
+            step(&mut st, &op);
+        }
     }
     // the arena is always dropped at the end (its own event) so that the ledger closes
     step(&mut st, &Op::Drop);
